@@ -54,7 +54,9 @@ def build(beh, idx, rng, mode):
                 steps.append({"op": "clone", "h": h, "h2": c})
                 clones[h] = c
         elif op == "set":
-            steps.append({"op": "set", "h": h, "k": st["k"], "t": st["t"]})
+            # (values are the driver's choice: often the SAME value at different times, so that an entry's time and
+            # its value are independent)
+            steps.append({"op": "set", "h": h, "k": st["k"], "t": st["t"], "val": rng.choice(["same", "same", "other", "v%d" % st["t"]])})
         elif op == "tomb":
             steps.append({"op": "tomb", "h": h, "k": st["k"], "t": st["t"]})
         elif op == "rmtomb":
